@@ -153,6 +153,43 @@ func checkC12(c *Ctx) {
 			}
 		}
 	}
+	// ---- C12.selfalias: an argument of a list / dictionary method may be the receiver itself (甲.合并(乙, 甲)); an owner
+	// that writes the receiver's store on a loop while the same loop still reads the store of another list / dictionary
+	// value that is not freshly built in the function reads its own half-done result
+	nSA := 0
+	for _, field := range []string{"Array.value", "HashMap.keyOrder", "HashMap.value"} {
+		var fns []string
+		for fn := range w[field] {
+			fns = append(fns, fn)
+		}
+		sort.Strings(fns)
+		for _, fn := range fns {
+			if strings.HasPrefix(fn, "(server)") {
+				continue
+			}
+			for _, in := range w[field][fn] {
+				nSA++
+				wfa := storeFieldAddr(in)
+				if wfa == nil || !loopBlock(in.Block()) {
+					continue
+				}
+				if _, fresh := wfa.X.(*ssa.Alloc); fresh {
+					continue
+				}
+				for _, other := range instrsOf(in.Parent()) {
+					ofa, ok := other.(*ssa.FieldAddr)
+					if !ok || ofa == wfa || ofa.X == wfa.X || fieldAddrName(ofa) != field {
+						continue
+					}
+					if !freshObject(ofa.X) && !onlyStoredTo(ofa) && reachesFrom(in.Block(), ofa.Block()) && reachesFrom(ofa.Block(), in.Block()) {
+						R.viol("C12.selfalias", fn+" writes "+field+" of its receiver on a loop that reads "+field+" of another value", u.pos(in.Pos()),
+							"the other list / dictionary can be the receiver itself (a value passed as its own argument): the loop then reads the store it is extending, so the result is not receiver ++ arguments")
+					}
+				}
+			}
+		}
+	}
+	R.count("selfalias_store_sites", nSA)
 	R.min("C12.owner", 15)
 	R.count("backing_store_writers", nW)
 
@@ -958,4 +995,65 @@ func checkC19(c *Ctx) {
 			R.viol("C19.maprange", s.key, s.u.pos(s.rs.Pos()), "order-sensitive: "+why)
 		}
 	}
+}
+
+// storeFieldAddr: the FieldAddr of the container field a write instruction goes to (field store, element store, map update, delete)
+func storeFieldAddr(in ssa.Instruction) *ssa.FieldAddr {
+	var v ssa.Value
+	switch x := in.(type) {
+	case *ssa.Store:
+		v = x.Addr
+	case *ssa.MapUpdate:
+		v = x.Map
+	case *ssa.Call:
+		if len(x.Call.Args) > 0 {
+			v = x.Call.Args[0]
+		}
+	}
+	for i := 0; i < 10 && v != nil; i++ {
+		switch x := v.(type) {
+		case *ssa.FieldAddr:
+			return x
+		case *ssa.UnOp:
+			v = x.X
+		case *ssa.IndexAddr:
+			v = x.X
+		case *ssa.Slice:
+			v = x.X
+		default:
+			return nil
+		}
+	}
+	return nil
+}
+
+// freshObject: the pointer is an allocation made in this function (composite literal / new)
+func freshObject(v ssa.Value) bool {
+	switch x := v.(type) {
+	case *ssa.Alloc:
+		return true
+	case *ssa.Phi:
+		for _, e := range x.Edges {
+			if !freshObject(e) {
+				return false
+			}
+		}
+		return len(x.Edges) > 0
+	}
+	return false
+}
+
+// onlyStoredTo: the field address is used only as the target of stores (never loaded)
+func onlyStoredTo(fa *ssa.FieldAddr) bool {
+	refs := fa.Referrers()
+	if refs == nil {
+		return false
+	}
+	for _, r := range *refs {
+		st, ok := r.(*ssa.Store)
+		if !ok || st.Addr != fa {
+			return false
+		}
+	}
+	return true
 }
